@@ -318,6 +318,15 @@ func (vc *VC) applyContract(fc *FuncContract, fn *ssa.Function, c *ssa.CallCommo
 		}
 		env.vars[fmt.Sprintf("arg%d", i)] = a
 	}
+	// bounded recursion: a call between two functions that both carry a measure must decrease it
+	if vc.fc != nil && vc.fc.Measure != nil && fc.Measure != nil && vc.entrySt != nil {
+		callee := vc.tr(fc.Measure, env)
+		cenv := vc.newEnv(vc.entrySt, vc.entrySt)
+		caller := vc.tr(vc.fc.Measure, cenv)
+		I := types.Typ[types.Int]
+		callee, caller = vc.coerceInt(callee, I), vc.coerceInt(caller, I)
+		vc.oblige("recursion", "measure-decreases:"+fc.Name, and(vc.ar.le(ixInfo, vc.ar.ix(0), callee.S), vc.ar.lt(ixInfo, callee.S, caller.S)), pos)
+	}
 	if !c.IsInvoke() {
 		env.argVals = map[string]ssa.Value{}
 		for i, a := range c.Args {
